@@ -143,6 +143,25 @@ type SegmentSearchRequest struct {
 }
 
 // a holder struct for holding a cmi for a single block. Based on CmiType, either Bf or Ranges will be defined
+// BloomMayContainKey probes a block bloom for a search key. The bloom holds every
+// value as a whole and its space separated words, not sequences of words: a key
+// with spaces (a phrase) that lies inside a longer value can only be found word by
+// word, and then all of its words must be present.
+func BloomMayContainKey(bf *bloom.BloomFilter, key string) bool {
+	if bf.TestString(key) {
+		return true
+	}
+	if !strings.Contains(key, " ") {
+		return false
+	}
+	for _, word := range strings.Split(key, " ") {
+		if word != "" && !bf.TestString(word) {
+			return false
+		}
+	}
+	return true
+}
+
 type CmiContainer struct {
 	CmiType uint8
 	Loaded  bool
